@@ -8,6 +8,8 @@ import PynModel.Process.Tuning
 import PynModel.Core.NumpyWrap
 import PynModel.Kernels.Eta
 import PynModel.Core.Trial
+import PynModel.Core.Interp
+import PynModel.Core.ISetOps
 /-!
 # Line protocol, part 2: container-level operations (series constructor and histories)
 `snew <t> <rows> <sup|none>`            → `t|rows|sup|num/den`
@@ -299,6 +301,57 @@ def tcountStep (toks : List String) : String :=
     | _, _, _, _, _ => "bad-op"
   | _ => "bad-op"
 
+/-- `interp tq tt dd st en` → `t:num/den` or `t:nan` per query time inside the epochs -/
+def interpStep (toks : List String) : String :=
+  match toks with
+  | ["interp", tq, tt, dd, st, en] =>
+    match parseArr tq, parseArr tt, parseArr dd, parseArr st, parseArr en with
+    | some tq, some tt, some dd, some st, some en =>
+      if st.size = en.size ∧ tt.size = dd.size then
+        let r := interpolate tq tt (dd.map fun (v : Int) => ((v : Int) : Rat)) st en
+        if r.isEmpty then "-" else
+        ",".intercalate (r.map fun (x, v) => match v with
+          | some q => s!"{x}:{q.num}/{q.den}"
+          | none => s!"{x}:nan")
+      else "pre-fail"
+    | _, _, _, _, _ => "bad-op"
+  | _ => "bad-op"
+
+/-- `idrops <pairs> <thr>` · `idropl <pairs> <thr>` · `imclose <pairs> <thr>` · `itspan <pairs>` · `iget <pairs> <ix>`
+→ pairs (`err` where NumPy raises IndexError) -/
+def isetStep (toks : List String) : String :=
+  match toks with
+  | ["ifsup", ts, gap] =>
+    match parseArr ts, gap.toInt? with
+    | some ts, some gap => match ISet.findSupport ts gap with
+      | some r => showPairs r
+      | none => "err"
+    | _, _ => "bad-op"
+  | [op, p, a] =>
+    match parsePairs p with
+    | some p =>
+      if op == "iget" then
+        match parseNatArr a with
+        | some ix => match ISet.getIdx p ix with
+          | some r => showPairs r
+          | none => "err"
+        | none => "bad-op"
+      else match a.toInt? with
+        | some thr =>
+          if op == "idrops" then showPairs (ISet.dropShort p thr)
+          else if op == "idropl" then showPairs (ISet.dropLong p thr)
+          else if op == "imclose" then showPairs (ISet.mergeClose p thr)
+          else "bad-op"
+        | none => "bad-op"
+    | none => "bad-op"
+  | ["itspan", p] =>
+    match parsePairs p with
+    | some p => match ISet.timeSpan p with
+      | some r => showPairs r
+      | none => "err"
+    | none => "bad-op"
+  | _ => "bad-op"
+
 def stepAll (line : String) : String :=
   let toks := (line.trimAscii.toString.splitOn " ").filter (· ≠ "")
   match toks with
@@ -318,6 +371,13 @@ def stepAll (line : String) : String :=
   | "eta" :: _ => etaStep toks
   | "trial" :: _ => trialStep toks
   | "tcount" :: _ => tcountStep toks
+  | "interp" :: _ => interpStep toks
+  | "iget" :: _ => isetStep toks
+  | "idrops" :: _ => isetStep toks
+  | "idropl" :: _ => isetStep toks
+  | "imclose" :: _ => isetStep toks
+  | "itspan" :: _ => isetStep toks
+  | "ifsup" :: _ => isetStep toks
   | _ => kernelStep toks
 
 end Pyn
